@@ -101,8 +101,11 @@ class ShimEvent:
     def wait(self, timeout=None):
         s = ShimEvent.sched
         me = s.current
-        if self._flag or not isinstance(me, Caller):
-            return self._flag
+        if self._flag:
+            return True
+        if not isinstance(me, Caller):
+            # the loop thread itself waits for something only the loop can do: a real deadlock
+            raise simloop.LoopThreadBlocked('blocking wait on the event-loop thread (a blocking emit / sync() called from a loop callback)')
         me.state = 'blocked'
         me.event = self
         me.yield_baton()
